@@ -43,6 +43,21 @@ pub fn c02(ctx: &Ctx) -> (Report, Meta) {
         }
     });
     rep.merge(raw);
+    // hostile list frames (63 satellites x 31 biases; maximal per-satellite counts)
+    for n in [1059u16, 1065] {
+        for f in crate::bias::hostile_frames(n) {
+            rep.transitions += 1;
+            rep.states += 1;
+            match catch(|| MessageFrame::new(&f).map(|fr| { let m = fr.get_message(); m == m }).unwrap_or(true)) {
+                Ok(true) => {
+                    rep.traces += 1;
+                    rep.outcome("hostile-list-frame");
+                }
+                Ok(false) => rep.violation("C02", format!("hostile:self-inequality:{}", n), "decoded message != itself".into(), f.len() as u64, json!({"kind":"frame_decode","frame":hex(&f)})),
+                Err(p) => rep.violation("C02", panic_key(&p, &n.to_string()), format!("msg {}: hostile frame (63 satellites x 31 biases) panics at {}: {}", n, p.location, p.message), f.len() as u64, json!({"kind":"frame_decode","frame":hex(&f)})),
+            }
+        }
+    }
     rep.distinct_nontrivial = rep.states;
     rep.sample(json!({"number":1077,"base":"ones","level":1,"deviations":[{"bit_offset":73,"bits":64,"value":"0x8000000000000000 (one satellite)"}],"expect":"typed or Corrupt, no panic"}));
     rep.sample(json!({"number":1004,"base":"zero","level":1,"deviations":[{"bit_offset":55,"bits":5,"value":"every 0..31"}],"then":"T = needed, needed-1 bytes"}));
